@@ -8,36 +8,48 @@ Proof. intros vt lt H. rewrite type_compat_spec. exact H. Qed.
 Print Assumptions C04_type_compat_complete.
 
 (** check_value accepts every literal that has the expected type under the specification's input coercions and whose
-    variables are defined and usable at their positions (IsVariableUsageAllowed without hasLocationDefaultValue, which
-    the code does not implement: see C04_variable_default_position_refuted). Together with C03_check_value_sound this
-    makes check_value exact on well-formed schemas, up to that clause. *)
+    variables are defined and usable at their positions (IsVariableUsageAllowed, both halves: [use_ok] judges a use with
+    the default value of its position). Together with C03_check_value_sound this makes check_value exact on well-formed
+    schemas. [resolves], [input_types_closed]: input positions have existing input types. *)
 Theorem C04_check_value_complete : forall S vars,
   schema_wf S = true -> input_types_closed S = true ->
-  forall v t ld,
+  forall v t,
     resolves S t = true -> lit_ok S v t = true ->
-    Forall (use_strict vars) (var_uses false S v (Some t) ld) ->
+    Forall (use_ok vars) (var_uses false S v (Some t) false) ->
     check_value S vars v t = [].
 Proof. exact check_value_complete. Qed.
 Print Assumptions C04_check_value_complete.
 
-(** check_arguments reports nothing when every supplied argument is defined, every required one is supplied, and the
-    value supplied for each defined argument has its type (with variables usable as above) *)
+(** the value given for an argument / input field (expected_type_of_location: a variable given directly for a non-null
+    position that has a default value is judged with hasLocationDefaultValue) *)
+Theorem C04_value_at_location_complete : forall S vars,
+  schema_wf S = true -> input_types_closed S = true ->
+  forall d v,
+    ty_wf (iv_type d) = true -> resolves S (iv_type d) = true ->
+    lit_ok S v (iv_type d) = true ->
+    Forall (use_ok vars) (var_uses false S v (Some (iv_type d)) (has_default d)) ->
+    check_value S vars v (loc_type d v) = [].
+Proof. exact value_at_location_complete. Qed.
+Print Assumptions C04_value_at_location_complete.
+
+(** check_arguments reports nothing when every supplied argument is defined, every required one is supplied, and every
+    supplied value has the type of its argument (with variables usable as above) *)
 Theorem C04_check_arguments_complete : forall S vars,
   schema_wf S = true -> input_types_closed S = true ->
   forall ppos pname kind args defs,
+    NoDup (def_names defs) -> (forall d, In d defs -> ty_wf (iv_type d) = true) ->
     (forall d, In d defs -> resolves S (iv_type d) = true) ->
     (forall a, args = Some a -> args_list a <> []) ->
     args_defined_ok (provided args, defs) = true ->
     required_args_ok (provided args, defs) = true ->
     literal_types_vis S (provided args, defs) = true ->
-    Forall (use_strict vars) (args_var_uses false S (provided args) defs) ->
+    Forall (use_ok vars) (args_var_uses false S (provided args) defs) ->
     check_arguments S vars ppos pname kind args defs = [].
 Proof. exact check_arguments_complete. Qed.
 Print Assumptions C04_check_arguments_complete.
 
 (** check_directives reports nothing for a directive list in which every directive is defined, allowed at the location,
-    given well-typed arguments ([directive_fine]), and no non-repeatable directive occurs twice
-    ([nonrep] = names of the defined non-repeatable directives of the list, as in Spec.v R_directives_unique) *)
+    given well-typed arguments ([directive_fine]), and no non-repeatable directive occurs twice *)
 Theorem C04_check_directives_complete : forall S vars,
   schema_wf S = true -> input_types_closed S = true ->
   forall loc ds,
@@ -47,78 +59,69 @@ Theorem C04_check_directives_complete : forall S vars,
 Proof. exact check_directives_complete. Qed.
 Print Assumptions C04_check_directives_complete.
 
-Theorem C04_guard_satisfiable : schema_wf w_schema_0 = true /\ input_types_closed w_schema_0 = true.
-Proof. split; vm_compute; reflexivity. Qed.
-Print Assumptions C04_guard_satisfiable.
-
-(** The converse of C03_sound. [schema_closed]: further parts of "the schema passed check" (unique type names, field
-    and argument types exist, union members are objects). [doc_fine_vis]: every implemented rule holds on the sites
-    reached by following spreads from the operations ([rule_ok_vis]), variables are usable without relying on a default
-    of the position, written argument lists are non-empty (grammar), root operation types are object types.
-    The proof includes that [doc_fuel] suffices: the model never answers OutOfFuel on such a document.
-    The subscription rule stays outside (the implementation's own count is a hypothesis), as in C03. *)
+(** The converse of C03_sound on the visible sites. [schema_closed]: further parts of "the schema passed check".
+    [doc_fine_vis]: every implemented rule holds on the sites reached by following spreads from the operations, written
+    argument lists are non-empty (grammar), root operation types are object types. The proof includes that [doc_fuel]
+    suffices: the model never answers OutOfFuel on such a document. Two hypotheses are in the implementation's own terms:
+    its collection of response keys finds at most one for a subscription (the specification-side rule is part of
+    [doc_fine_vis]; that the path-based collection finds no other key than CollectFields is not proved), and every
+    fragment definition is transitively spread by an operation (Fragments Must Be Used), so that the pass over
+    never-spread fragments (commit c67e45e) is empty. *)
 Theorem C04_complete_vis : forall S D,
   schema_wf S = true -> schema_closed S = true -> doc_fine_vis S D = true ->
   (forall o, In o (doc_ops D) -> op_type o = Subscription ->
-     count_fields (doc_fuel D) (doc_frags D) [] (op_sel o) <= 1) ->
+     length (collect_response_keys (doc_fuel D) (doc_frags D) [] (op_sel o) []) <= 1) ->
+  forallb (fun f => mem_str (iname (fr_name f)) (spread_by_operations (doc_fuel D) (doc_frags D) (od_defs D))) (doc_frags D) = true ->
   check_operation_document S D = [].
 Proof. exact complete_vis. Qed.
 Print Assumptions C04_complete_vis.
 
-Theorem C04_complete_vis_guard_satisfiable :
-  schema_wf w_schema_0 = true /\ schema_closed w_schema_0 = true /\ doc_fine_vis w_schema_0 w_doc_14 = true.
-Proof. repeat split; vm_compute; reflexivity. Qed.
-Print Assumptions C04_complete_vis_guard_satisfiable.
-
-(** every-position reading implies visible-site reading: the sites reached by following spreads from an operation are
-    sites of the operation or of fragment definitions the reference validator's closure reaches (so its variable rules
-    cover them), shallow variable uses are deep ones, and a cycle met on the way is a cycle of the fragment graph *)
+(** every-position reading implies visible-site reading *)
 Theorem C04_full_to_vis : forall S D,
-  schema_wf S = true -> (forall r, rule_ok S D r = true) -> forall r, rule_ok_vis S D r = true.
-Proof. intros S D Hw Hf r. exact (full_to_vis S D Hw Hf r). Qed.
+  (forall r, rule_ok S D r = true) -> forall r, rule_ok_vis S D r = true.
+Proof. intros S D Hf r. exact (full_to_vis S D Hf r). Qed.
 Print Assumptions C04_full_to_vis.
 
 (** C04_complete: a document the reference validator finds valid (every implemented rule on every syntactic position)
-    is accepted by the model with no diagnostic — and the model does not run out of fuel on it.
-    Guards, all computable and evaluated on every generated case: [schema_wf], [schema_closed] ("the schema passed
-    check"); [doc_guard]: no variable usage relies on a default value of its position (the clause of
-    IsVariableUsageAllowed the code lacks: C04_variable_default_position_refuted), written argument lists are
-    non-empty (grammar), root operation types are object types. The subscription rule: the specification counts
-    response keys, the code counts selections; the code's count is a hypothesis, and `subscription { s s }`
-    (C04_subscription_same_field_refuted) is the gap between the two. *)
+    is accepted by the model with no diagnostic — and the model does not run out of fuel on it. [doc_guard]: written
+    argument lists are non-empty (grammar), root operation types are object types. No reliance on a clause the code lacks
+    remains: the two former gaps (hasLocationDefaultValue; a subscription's root field selected twice) are repaired in
+    /repo (commits aff743c, a3d3d08). The last two hypotheses are as in C04_complete_vis. *)
 Theorem C04_complete : forall S D,
   schema_wf S = true -> schema_closed S = true ->
   spec_valid S D = true -> doc_guard S D = true ->
   (forall o, In o (doc_ops D) -> op_type o = Subscription ->
-     count_fields (doc_fuel D) (doc_frags D) [] (op_sel o) <= 1) ->
+     length (collect_response_keys (doc_fuel D) (doc_frags D) [] (op_sel o) []) <= 1) ->
+  forallb (fun f => mem_str (iname (fr_name f)) (spread_by_operations (doc_fuel D) (doc_frags D) (od_defs D))) (doc_frags D) = true ->
   check_operation_document S D = [].
 Proof. exact complete_full. Qed.
 Print Assumptions C04_complete.
 
 Theorem C04_complete_guard_satisfiable :
   schema_wf w_schema_0 = true /\ schema_closed w_schema_0 = true
-  /\ spec_valid w_schema_0 w_doc_14 = true /\ doc_guard w_schema_0 w_doc_14 = true.
+  /\ spec_valid w_schema_0 w_doc_14 = true /\ doc_guard w_schema_0 w_doc_14 = true /\ doc_fine_vis w_schema_0 w_doc_14 = true
+  /\ forallb (fun f => mem_str (iname (fr_name f))
+                         (spread_by_operations (doc_fuel w_doc_14) (doc_frags w_doc_14) (od_defs w_doc_14))) (doc_frags w_doc_14) = true.
 Proof. repeat split; vm_compute; reflexivity. Qed.
 Print Assumptions C04_complete_guard_satisfiable.
 
-(** spec-valid documents the current code rejects (known findings) *)
-Theorem C04_variable_default_position_refuted :
-  exists S D, spec_valid S D = true /\ check_operation_document S D <> [].
-Proof. exists w_schema_0, w_doc_15. exact variable_default_position_refuted. Qed.
-Print Assumptions C04_variable_default_position_refuted.
+(** spec-valid forms the code used to reject, accepted since the fixes *)
+Theorem C04_variable_default_position_now_accepted :
+  spec_valid w_schema_0 w_doc_15 = true /\ check_operation_document w_schema_0 w_doc_15 = [].
+Proof. exact variable_default_position_now_accepted. Qed.
+Print Assumptions C04_variable_default_position_now_accepted.
 
-Theorem C04_subscription_same_field_refuted :
-  exists S D, spec_valid S D = true /\ rule_ok S D R_single_subscription_root = true
-              /\ check_operation_document S D <> [].
-Proof.
-  exists w_schema_0, w_doc_16. destruct subscription_same_field_refuted as [A B].
-  split; [exact A|]. split; [vm_compute; reflexivity | exact B].
-Qed.
-Print Assumptions C04_subscription_same_field_refuted.
+Theorem C04_subscription_same_field_now_accepted :
+  spec_valid w_schema_0 w_doc_16 = true /\ check_operation_document w_schema_0 w_doc_16 = []
+  /\ spec_valid w_schema_0 w_doc_23 = true /\ check_operation_document w_schema_0 w_doc_23 = []
+  /\ rule_ok w_schema_0 w_doc_24 R_single_subscription_root = false
+  /\ (exists p i, check_operation_document w_schema_0 w_doc_24 = [mkErr SubscriptionMustHaveExactlyOneRootField p i]).
+Proof. exact subscription_same_field_now_accepted. Qed.
+Print Assumptions C04_subscription_same_field_now_accepted.
 
 (** valid documents of the corpus are accepted (non-vacuity of the reading "valid implies accepted") *)
 Theorem C04_valid_documents_accepted :
   forallb (fun D => spec_valid w_schema_0 D && match check_operation_document w_schema_0 D with [] => true | _ => false end)
-          [w_doc_6; w_doc_7; w_doc_14] = true.
+          [w_doc_6; w_doc_7; w_doc_14; w_doc_15; w_doc_16; w_doc_23] = true.
 Proof. exact valid_documents_accepted. Qed.
 Print Assumptions C04_valid_documents_accepted.
